@@ -15,7 +15,7 @@ from fractions import Fraction
 import numpy as np
 
 from common import F, Rng, close_all, digest, err_class, fl, pmat, pvec, rs
-from fpca_util import (EigCapture, Fm, Fv, Smat, Svec, curves, dense, grid, quiet, raw_from_call, sel_to_model,
+from fpca_util import (trapz_weights, EigCapture, Fm, Fv, Smat, Svec, curves, dense, grid, quiet, raw_from_call, sel_to_model,
                        sel_to_py)
 
 PROP = "C02"
@@ -213,9 +213,7 @@ def compare(case, impl, model):
 # --------------------------------------------------------------------------
 
 def _weights(t):
-    from FDApy.misc.utils import _integration_weights
-
-    return _integration_weights(np.asarray(t, dtype=float), "trapz")
+    return trapz_weights(t)
 
 
 def solver_contract(impl):
